@@ -48,6 +48,11 @@ pub fn run(ctx: &Ctx) -> i32 {
                         es.push(("<<".to_string(), merged));
                     }
                 }
+                if rng.chance(5) {
+                    // a truly empty example (no marker): a rule built from negations may well be
+                    // true on it
+                    return DVal::Obj(vec![]);
+                }
                 d.set("__marker", DVal::Str(marker(side, i, salt)));
                 d
             };
@@ -169,6 +174,29 @@ pub fn run(ctx: &Ctx) -> i32 {
                 if should_fail {
                     rep.nontrivial_key(&format!("{}|{}|{}", pattern, sw.0 != 0, malformed.len()));
                 }
+                // call sequence: the example lists are public fields; after a successful
+                // validate() an example that must fail is added (a matching document as a true
+                // negative, or a non-matching one as a true positive) - validate() looks again
+                if !should_fail {
+                    let mut r2 = r.clone();
+                    let _ = eng::validate(&r2);
+                    let moved = if let Some(ex) = r2.true_positives.first().cloned() {
+                        r2.true_negatives.push(ex);
+                        true
+                    } else if let Some(ex) = r2.true_negatives.first().cloned() {
+                        r2.true_positives.push(ex);
+                        true
+                    } else {
+                        false
+                    };
+                    if moved {
+                        rep.evaluations += 1;
+                        rep.count("validate_after_edit");
+                        if let Ok(Ok(_)) = eng::validate(&r2) {
+                            rep.violation("validate-ok", "c13-ok:after-edit", &format!("validate() returns Ok after an example that must fail was added to a rule that had validated before (optimise[{}])", sw.name()), json!({"rule": text, "switches": sw.0, "expected": "Err", "failing_examples": [], "malformed": 0, "sequence": "validate(); push a true positive onto true_negatives; validate()"}));
+                        }
+                    }
+                }
             }
             if n == 0 && shard < 3 {
                 rep.sample(json!({"rule": text, "positives": ntp, "negatives": ntn, "malformed_entries": malformed.len()}));
@@ -183,7 +211,7 @@ pub fn run(ctx: &Ctx) -> i32 {
         ctx,
         rep,
         Meta {
-            rule: "generated rules with example lists of 0-3 positives and 0-3 negatives drawn from matching / non-matching / empty documents, each carrying a unique marker in a field no predicate addresses; a quarter of the rules also get non-mapping example entries; one example in eight keeps part of its fields under a literal `<<` (merge-key) entry; unoptimised and four optimised variants. Oracle: matches() on each example: validate() must return Ok(true) exactly when all behave, otherwise an error whose text contains the markers of exactly the failing examples; malformed entries must give an error, never a panic. non-trivial = list with at least one failing or malformed example; distinct by (pass/fail pattern, optimised?, malformed count)".into(),
+            rule: "generated rules with example lists of 0-3 positives and 0-3 negatives drawn from matching / non-matching / empty documents, each carrying a unique marker in a field no predicate addresses; a quarter of the rules also get non-mapping example entries; one example in eight keeps part of its fields under a literal `<<` (merge-key) entry; one in twenty is a truly empty mapping; after a successful validate() an example that must fail is added through the public fields and validate() is called again; unoptimised and four optimised variants. Oracle: matches() on each example: validate() must return Ok(true) exactly when all behave, otherwise an error whose text contains the markers of exactly the failing examples; malformed entries must give an error, never a panic. non-trivial = list with at least one failing or malformed example; distinct by (pass/fail pattern, optimised?, malformed count)".into(),
             exhaustive: false,
             assumptions: vec!["'names each failing example' is checked through unique marker values, independent of the error's format".into()],
             min_nontrivial: 30,
